@@ -33,6 +33,10 @@ package authboss
 //@               ro.RedirectPath == path_join(ab.Config.Paths.Mount, "/login?" ++ encode_values1("redir", redir_target(r, ab, mountPathed)))) &&
 //@           !emits WriteHeader(_, _),
 //@           !emits WriteHeader(_, _) && !emits Redirect(_)))))
+//@   -- a refusal mode nobody set - the zero value, which is what the modules hand over under the
+//@   -- default configuration - is the not-found one: the refusal is never an empty 200
+//@   ensures unset_mode_is_not_found: (!panics && !emits Next.ServeHTTP(_, _, _) && failResponse == 0 &&
+//@       !(emits Store.Load(_) -> (_, ?e) :: e != nil && e != ErrUserNotFound)) ==> (emits WriteHeader(_, 404))
 //@   ensures one_status: each WriteHeader(_, ?c) => !(before WriteHeader(_, _)) && (c == 404 || c == 401 || c == 500)
 //@   ensures storage_error_500: (emits Store.Load(_) -> (_, ?e) :: e != nil && e != ErrUserNotFound) ==>
 //@       ((emits WriteHeader(_, 500)) && !emits Next.ServeHTTP(_, _, _))
@@ -328,3 +332,10 @@ package authboss
 //@   option trusted body not verified (builds the per-instance copy of the registered module through package reflect)
 //@   option bounded module_load 40 instances, modules registered by pointer and by value
 //@   ensures error_is_the_modules: true
+//
+//@ func MakeOAuth2PID
+//@   property C14 C07 C01
+//@   -- the identifier is exactly the three pieces around the separator: nothing is folded or
+//@   -- escaped (lemma pid_injective is about this shape; a remember cookie issued to the
+//@   -- identifier leads back to exactly this pair)
+//@   ensures shape: result == "oauth2;;" + provider + ";;" + uid
